@@ -76,6 +76,7 @@ class Ctx(object):
             shutil.rmtree(self.build)
         os.makedirs(self.build)
         self._distinct = set()
+        self._auto_samples = []
         self.notes = []
         self.fail_samples = {}     # (where, kind) -> [info]   (maintenance: predicate inference for new findings)
         self.pass_samples = {}     # where -> [info]
@@ -93,6 +94,9 @@ class Ctx(object):
         self.cov['evaluations'] += n
         if key is not None and nontrivial:
             h = hash(key)
+            if h not in self._distinct and len(self._auto_samples) < 4:
+                # a few of the actual cases, written out (the key identifies the case: target, input, parameters ...)
+                self._auto_samples.append(dict(case=repr(key)[:400]))
             self._distinct.add(h)
 
     def sample(self, obj, limit=12):
@@ -155,6 +159,7 @@ class Ctx(object):
     def finish(self, level='proof'):
         self.cov['distinct_nontrivial'] = max(self.cov.get('distinct_nontrivial', 0), len(self._distinct))
         cov = dict(self.cov)
+        cov['samples'] = list(cov['samples']) + self._auto_samples
         cov.update(self.extra)
         cov['known_findings_hit'] = self.known_hits
         cov['notes'] = self.notes
